@@ -1,7 +1,7 @@
 (* C07 - Output is a deterministic function of the logical input.  Statements and `exact` only. *)
 From Coq Require Import List String Bool NArith Sorting.Permutation.
 From RC Require Import gen.ConstsC14 model.StrC14 model.FileNameC14 model.PyRequiresC14 model.IndexPageC14 proofs.IndexPageC14P proofs.PageOrderP.
-From RC Require Import lib.Pep440 lib.Name model.Merge model.Graph model.Solver proofs.SolverP proofs.OrderFreeP.
+From RC Require Import lib.Pep440 lib.Name model.Merge model.Graph model.Solver proofs.SolverP proofs.OrderFreeP proofs.WholeOrderFree.
 Import ListNotations.
 
 (* Listing order: two repositories that list the same candidates of the requested project in any
@@ -58,3 +58,22 @@ Theorem C07_index_page_entry_independent_partial :
   In (c, l) (IndexPageC14.offered V pvf pvr sys (flat_map events_of items)).
 Proof. exact page_entry_independent. Qed.
 Print Assumptions C07_index_page_entry_independent_partial.
+
+(* WHOLE COMPILE: if two stacks of repositories list, project by project, the same candidates in any
+   two orders (no two candidates of one project with the same version), the compile gives the same
+   outcome - success or failure, final graph, roots, named requirement - for all inputs, constraint
+   files, options and walk-back budgets.  (The solver reaches the repositories only through get_dist.) *)
+Theorem C07_whole_compile_listing_order_free :
+  forall rs rs', stacks_same_up_to_order rs rs' ->
+  forall fuel e inputs cons rc md ob_all ob,
+  perform_compile_stack_ob fuel e rs inputs cons rc md ob_all ob = perform_compile_stack_ob fuel e rs' inputs cons rc md ob_all ob.
+Proof. exact whole_compile_listing_order_free. Qed.
+Print Assumptions C07_whole_compile_listing_order_free.
+
+(* more generally, the compile depends on the repositories only through the answers they give *)
+Theorem C07_compile_depends_on_answers_only :
+  forall u u', (forall allow r budget, get_dist_stack_src allow u r budget = get_dist_stack_src allow u' r budget) ->
+  forall fuel e inputs cons rc md ob_all ob,
+  perform_compile_stack_ob fuel e u inputs cons rc md ob_all ob = perform_compile_stack_ob fuel e u' inputs cons rc md ob_all ob.
+Proof. exact perform_compile_congr. Qed.
+Print Assumptions C07_compile_depends_on_answers_only.
